@@ -32,7 +32,10 @@ BRANCH_HDR = ("import OrixProofs.Lemmas.ConvKernTac\nimport OrixModel\nimport Or
 BRANCH_SIMPS = ("Scalar.npow, lt_real, le_real, beq_real, abs_real, lit_real, Nat.cast_ofNat, Nat.cast_one, Nat.cast_zero, "
                 "Bool.and_eq_true, Bool.not_eq_true', Bool.not_eq_eq_eq_not, Bool.not_true, Quat.toList, Vec3.toList, "
                 "Euler.toList, AxAng.toList, Quat.neg, Quat.divS, Conv.eps9, Conv.eps8, Conv.half")
-BRANCH_TAC = "by\n  simp only [{defs}, " + BRANCH_SIMPS + "]\n  kern_close"
+# second pass: a negated test (`if not c:` in the source, swapped branches) arrives as `c = false`; turn it into `¬ c = true`,
+# flip the `if`, and read the Boolean connectives as propositions, so that both sides carry the same conditions
+NEG_PASS = ("  try simp only [← Bool.not_eq_true, ite_not, Bool.and_eq_true, Bool.or_eq_true, lt_real, le_real, beq_real]\n")
+BRANCH_TAC = "by\n  simp only [{defs}, " + BRANCH_SIMPS + "]\n" + NEG_PASS + "  kern_close"
 # om2qu_single: the four first-stage values (0.5*sqrt(x_almost) with their sign tests) are abstracted first, then the
 # two-fold logic is split (64 leaves).  A full split of the un-abstracted kernel needs > 5 min, so the obligation is
 # only generated while the generated kernel still has that first-stage shape (om2qu_shape); otherwise it is skipped
